@@ -214,6 +214,9 @@ func (x *c13World) apply(op string, last bool) (enabled bool) {
 			fields = append(fields, ref.FS(ref.FAutoResponse, "gone"))
 			s.auto = "gone"
 		}
+		if arg == 10 { // a user who agrees with an empty name: it has completed login like everybody else
+			fields = []ref.Fld{ref.FS(ref.FUserName, ""), ref.F16(ref.FUserIconID, uint16(20+k)), ref.F16(ref.FOptions, 0)}
+		}
 		s.c.Req(ref.TAgreed, fields...)
 		settle()
 		s.status = 2
@@ -585,7 +588,7 @@ func c13Exec(shift int) func(hist []string) explore.SeqResult {
 }
 
 func c13Alphabet() []string {
-	a := []string{"c123:0", "c123:1", "c123:2", "c15:1", "c15:2", "agree:1:0", "agree:1:5", "agree:2:0", "agree:2:6", "agree:1:8", "agree:2:9",
+	a := []string{"c123:0", "c123:1", "c123:2", "c15:1", "c15:2", "agree:1:0", "agree:1:5", "agree:2:0", "agree:2:6", "agree:1:8", "agree:2:9", "agree:1:10",
 		"info:0:0", "info:1:1", "info:1:2", "info:2:2", "info:1:3", "info:1:4", "priv:1", "priv:2", "bye:0", "bye:1", "bye:2",
 		"pm:0:1", "pm:1:0", "pm:1:2", "pm:2:1", "pm:0:2", "pm:2:0", "inv:0:1", "inv:1:2", "ginfo:0:1", "ginfo:1:2", "kick:0:1", "kick:0:2", "stale:0:0", "stale:1:1", "stale:1:2", "stale:0:3"}
 	return a
